@@ -150,8 +150,12 @@ def gen_params(rng, cmd, n, data_values=None, hostile=False):
     return p
 
 
+WILD_POOL = [1 / 3.0, -1 / 3.0, 3.141592653589793, -2.718281828459045, 0.1, 0.7, -0.3, 1e-6, -1e-6, 1234.5678, -9876.54321, 1e6, 2.5, 0.0, 1.0, -1.0, 17.000000000000004,
+             0.30000000000000004, 99.99999999999999, 5e-5]
+
+
 def gen_case(rng, cmd, dtypes=arr.DTYPES_Q, max_cells=60, ranks=(1, 2, 3), hostile=False, max_n=5,
-             masks=True, distinct2=None, n=None):
+             masks=True, distinct2=None, n=None, wild=False):
     """A JSON case: {"cmd", "inputs": [array specs], "params"}."""
     n = n or n_inputs(rng, cmd, max_n)
     shape = arr.gen_shape(rng, max_cells, ranks)
@@ -164,6 +168,16 @@ def gen_case(rng, cmd, dtypes=arr.DTYPES_Q, max_cells=60, ranks=(1, 2, 3), hosti
         need2 = (cmd in STATS or cmd in ("NormalizeCurve", "CvtToFuzzyCurve")) if distinct2 is None else distinct2
         ins.append(arr.gen_array(rng, shape, dt, fuzzy=fuzzy_in, mask_style=None if masks else "none",
                                  payload=rng.choice(arr.PAYLOADS), distinct2=need2))
+    if wild and not fuzzy_in:
+        # finite floats off the dyadic lattice (compared with a tolerance scaled by the reference model)
+        for s_ in ins:
+            if s_["dtype"] == "float64":
+                s_["data"] = [rng.choice(WILD_POOL) if rng.random() < 0.8 else rng.uniform(-1000, 1000) for _ in s_["data"]]
+        if (cmd in STATS or cmd in ("NormalizeCurve", "CvtToFuzzyCurve")) and len(set(ins[0]["data"])) < 2 and len(ins[0]["data"]) > 1 and ins[0]["dtype"] == "float64":
+            ins[0]["data"][0] = 12.625
+            ins[0]["data"][1] = -3.3
+            if ins[0]["mask"]:
+                ins[0]["mask"][0] = ins[0]["mask"][1] = False
     dv = [ins[0]["data"][i] for i in range(len(ins[0]["data"])) if not (ins[0]["mask"] and ins[0]["mask"][i])]
     params = gen_params(rng, cmd, n, dv or None, hostile=hostile)
     return {"cmd": cmd, "inputs": ins, "params": params}
